@@ -15,6 +15,7 @@ Definition NoReentry (st : state) (i : inst) (t : tid) : Prop := NoDup (thread_e
 
 (** how the list evolves, op by op *)
 Definition ene_step (st : state) (o : op) (g : list (inst * tid * sid)) : list (inst * tid * sid) :=
+  if existsb odd_hid (op_hids o) then g else        (* odd handle ids are reserved (phantom references): such an op is ignored *)
   match o with
   | OEnter t h => match hget h (st_handles st) with Some (HSpan i s) => (i, t, s) :: g | _ => g end
   | OExit t q => match find_seq q (st_created st) with Some (i, s) => gpop i t s g | None => g end
@@ -103,7 +104,15 @@ Definition stack_op (o : op) : bool := match o with OEnter _ _ | OExit _ _ | OEx
 Lemma other_ops_keep_stacks : forall st o, stack_op o = false -> ent_eq st (fst (step st o)).
 Proof.
   intros st o SO. unfold step. destruct (st_panicked st); [apply ent_eq_refl|].
-  destruct o; simpl in *; try discriminate.
+  destruct (existsb odd_hid (op_hids o)); [apply ent_eq_refl|].
+  assert (RG : forall st h l n, ent_eq st (set_guards h l n st)) by (split; reflexivity).
+  assert (RF : forall st f v, ent_eq st (set_filter f v st)) by (split; reflexivity).
+  assert (RP : forall st, ent_eq st (set_panicked st)) by (split; reflexivity).
+  assert (RH : forall st h, ent_eq st (set_handles (hdel h (st_handles st)) st)) by (split; reflexivity).
+  destruct o; simpl in *; try discriminate;
+    [ apply (rel_new_guards ent_eq ent_eq_trans RF RP) | .. | apply (rel_hold ent_eq ent_eq_refl RG) | apply (rel_poke ent_eq ent_eq_refl RG)
+    | apply (rel_peek ent_eq ent_eq_refl) | apply (rel_release ent_eq ent_eq_refl ent_eq_trans RG RH frame_ent)
+    | apply (rel_enabled ent_eq RF) | apply (rel_fevent ent_eq ent_eq_refl) ].
   - rewrite do_new_unfold. destruct (hget h (st_handles st)); [apply ent_eq_refl|].
     destruct (eff st t false) as [i|]; [|split; reflexivity].
     assert (R : match resolve st i t k with inl (st1, _, _) => ent_eq st st1 | inr _ => True end).
@@ -156,8 +165,8 @@ Qed.
 (** the specification list really is "entered and not yet exited": enter pushes, exit removes, nothing else touches it *)
 Theorem ene_history : forall pend st tr o, Inv pend st tr -> st_ene (fst (step st o)) = ene_step st o (st_ene st).
 Proof.
-  intros pend st tr o I. destruct (stack_op o) eqn:SO.
-  - unfold step. rewrite (i_nopanic _ _ _ I).
+  intros pend st tr o I. unfold ene_step. destruct (stack_op o) eqn:SO.
+  - unfold step. rewrite (i_nopanic _ _ _ I). destruct (existsb odd_hid (op_hids o)); [reflexivity|].
     assert (EX : forall t i s, st_ene (fst (exit_at st t i s)) = gpop i t s (st_ene st)).
     { intros t i s. pose proof (exit_at_stacks st t i s) as E.
       destruct (pop i t s (st_entries st)) as [[es b]|] eqn:P; [tauto|]. rewrite E.
@@ -167,7 +176,8 @@ Proof.
       apply (enter_stacks st t h i s Hh).
     + unfold do_exit. destruct (find_seq q (st_created st)) as [[i s]|]; [apply EX | reflexivity].
     + unfold do_exith. destruct (hget h (st_handles st)) as [[|i s]|]; try reflexivity. apply EX.
-  - destruct (other_ops_keep_stacks st o SO) as (_ & E). rewrite E. destruct o; simpl in *; try discriminate; reflexivity.
+  - destruct (other_ops_keep_stacks st o SO) as (_ & E). rewrite E.
+    destruct (existsb odd_hid (op_hids o)); [reflexivity|]. destruct o; simpl in *; try discriminate; reflexivity.
 Qed.
 
 (* ---------------------------------------------------------------- frame rule between threads *)
@@ -188,6 +198,7 @@ Lemma step_stack_cases : forall st o,
 Proof.
   intros st o. destruct (stack_op o) eqn:SO; [|left; apply other_ops_keep_stacks; auto].
   unfold step. destruct (st_panicked st); [left; apply ent_eq_refl|].
+  destruct (existsb odd_hid (op_hids o)); [left; apply ent_eq_refl|].
   assert (EX : forall t i s, ent_eq st (fst (exit_at st t i s)) \/
             (exists es' b, pop i t s (st_entries st) = Some (es', b) /\ st_entries (fst (exit_at st t i s)) = es' /\
                            st_ene (fst (exit_at st t i s)) = gpop i t s (st_ene st))).
@@ -244,8 +255,8 @@ Definition wanted_parent (st : state) (i : inst) (t : tid) (k : pkind) : option 
   | PExplicit hp => match hget hp (st_handles st) with Some (HSpan _ p) => Some p | _ => None end
   end.
 
-Theorem new_span_parent : forall st tr t h k a st' ob i, Inv None st tr ->
-  step st (ONewSpan t h k a) = (st', ob) -> forallb wf_obs ob = true ->
+Lemma do_new_parent : forall st tr t h k a st' ob i, Inv None st tr ->
+  do_new st t h k a = (st', ob) -> forallb wf_obs ob = true ->
   hget h (st_handles st) = None -> eff st t false = Some i ->
   exists sl, lookup st' i a = Some sl /\ s_seq sl = st_count st /\
              s_parent sl = wanted_parent st i t k /\
@@ -253,7 +264,7 @@ Theorem new_span_parent : forall st tr t h k a st' ob i, Inv None st tr ->
                Some (match wanted_parent st i t k with Some p => seq_at st i p | None => None end) /\
              hget h (st_handles st') = Some (HSpan i a).
 Proof.
-  intros st tr t h k a st' ob i I H W Hh Ef. unfold step in H. rewrite (i_nopanic _ _ _ I) in H.
+  intros st tr t h k a st' ob i I H W Hh Ef.
   rewrite do_new_unfold, Hh, Ef in H.
   assert (G : forall st1 parent, parent = wanted_parent st i t k ->
             ((parent = None /\ st1 = st) \/
@@ -289,6 +300,25 @@ Proof.
   - exfalso. simpl in H. inversion H; subst. rewrite Fn in W. simpl in W. discriminate.
 Qed.
 
+Theorem new_span_parent : forall st tr t h k a st' ob i, Inv None st tr ->
+  step st (ONewSpan t h k a) = (st', ob) -> forallb wf_obs ob = true ->
+  hget h (st_handles st) = None -> eff st t false = Some i ->
+  exists sl, lookup st' i a = Some sl /\ s_seq sl = st_count st /\
+             s_parent sl = wanted_parent st i t k /\
+             cpar_get (st_count st) (st_cpar st') =
+               Some (match wanted_parent st i t k with Some p => seq_at st i p | None => None end) /\
+             hget h (st_handles st') = Some (HSpan i a).
+Proof.
+  intros st tr t h k a st' ob i I H W Hh Ef. unfold step in H. rewrite (i_nopanic _ _ _ I) in H.
+  destruct (existsb odd_hid (op_hids (ONewSpan t h k a))); [inversion H; subst; simpl in W; discriminate|].
+  unfold new_with_guards in H. rewrite Ef in H.
+  destruct (in_limbo st i (fst a)); [inversion H; subst; simpl in W; discriminate|].
+  destruct (do_new st t h k a) as [st0 ob0] eqn:D. inversion H; subst st' ob; clear H.
+  rewrite forallb_app in W. apply andb_true_iff in W. destruct W as (W & _).
+  destruct (do_new_parent st tr t h k a st0 ob0 i I D W Hh Ef) as (sl & A & B & C & E & F).
+  exists sl. unfold note_vis. destruct (st_count st <? st_count st0); auto.
+Qed.
+
 (** events: event_span / event_scope as layer 0 sees them *)
 Definition event_parent (st : state) (i : inst) (t : tid) (k : pkind) : option sid :=
   match k with
@@ -299,14 +329,15 @@ Definition event_parent (st : state) (i : inst) (t : tid) (k : pkind) : option s
                     | _ => None end
   end.
 
-Theorem event_parent_spec : forall st t k i, st_panicked st = false -> eff st t false = Some i ->
+Theorem event_parent_spec : forall st t k i, st_panicked st = false -> existsb odd_hid (op_hids (OEvent_ t k)) = false ->
+  eff st t false = Some i ->
   exists d, step st (OEvent_ t k) =
     (st, [OEvent i (match lookup_current st i t with Some c => seq_at st i c | None => None end)
                  (match event_parent st i t k with Some s => seq_at st i s | None => None end)
                  (match event_parent st i t k with Some s => scope st i s | None => [] end)
                  (rev (match event_parent st i t k with Some s => scope st i s | None => [] end)) d]).
 Proof.
-  intros st t k i NP Ef. unfold step. rewrite NP. unfold do_event. rewrite Ef. eexists. reflexivity.
+  intros st t k i NP OH Ef. unfold step. rewrite NP, OH. unfold do_event. rewrite Ef. eexists. reflexivity.
 Qed.
 
 (* ---------------------------------------------------------------- scope = the chain of creation-time ancestors *)
@@ -371,59 +402,82 @@ Qed.
 Lemma frame_cpar : forall a b, frame_eq a b -> st_cpar b = st_cpar a.
 Proof. unfold frame_eq; intros a b H; decompose [and] H; auto. Qed.
 
-Lemma cpar_stable_step : forall st o q v, cpar_get q (st_cpar st) = Some v -> q < st_count st ->
-  (forall c w, cpar_get c (st_cpar st) = Some w -> c < st_count st) ->
+Definition cp_eq (a b : state) : Prop := st_cpar b = st_cpar a.
+
+Lemma do_new_cpar : forall st t h k a,
+  st_cpar (fst (do_new st t h k a)) = st_cpar st \/ exists w, st_cpar (fst (do_new st t h k a)) = (st_count st, w) :: st_cpar st.
+Proof.
+  intros. rewrite do_new_unfold. destruct (hget h (st_handles st)); [left; reflexivity|].
+  destruct (eff st t false) as [i|]; [|left; reflexivity].
+  assert (R : match resolve st i t k with inl (st1, _, _) => st_cpar st1 = st_cpar st /\ st_count st1 = st_count st | inr _ => True end).
+  { unfold resolve. destruct k as [| |hp]; auto.
+    - destruct (current_span st i t) as [c|]; auto. destruct (clone_span st i c) as [st2|] eqn:E; auto. destruct (clone_span_upd _ _ _ _ E) as (w & ->). auto.
+    - destruct (hget hp (st_handles st)) as [[|j p]|]; auto. destruct (clone_span st i p) as [st2|] eqn:E; auto. destruct (clone_span_upd _ _ _ _ E) as (w & ->). auto. }
+  destruct (resolve st i t k) as [[[st1 parent] o1]|e]; [|left; reflexivity]. destruct R as (R1 & R2).
+  unfold create. destruct (negb (alloc_legal (st_slots st1 i (fst a)) a)); [left; exact R1|].
+  match goal with |- context [new_layers ?L ?S ?I ?Q ?A] => pose proof (new_layers_others L S I Q A) as F; destruct (new_layers L S I Q A) as [st5 o5] end.
+  simpl in *. destruct F as (_ & _ & _ & _ & _ & _ & _ & _ & _ & _ & F & _). right. rewrite F. simpl. rewrite R2. eexists.
+  f_equal. destruct parent as [p|]; [|exact R1].
+  match goal with |- context [match ?x with Some _ => _ | None => _ end] => destruct x end; exact R1.
+Qed.
+
+Lemma cpar_stable_step : forall st o,
   st_cpar (fst (step st o)) = st_cpar st \/ exists w, st_cpar (fst (step st o)) = (st_count st, w) :: st_cpar st.
 Proof.
-  intros st o q v _ _ _. destruct (stack_op o) eqn:SO.
-  - left. unfold step. destruct (st_panicked st); [reflexivity|].
-    assert (EX : forall t i s, st_cpar (fst (exit_at st t i s)) = st_cpar st).
-    { intros. unfold exit_at. destruct (pop i t s (st_entries st)) as [[es last]|]; [|reflexivity].
-      destruct last; [|reflexivity].
-      match goal with |- context [eff ?S t false] => destruct (eff S t false) as [j|] end; [|reflexivity].
-      match goal with |- context [close_stack ?F ?S t true j s] => pose proof (frame_eq_close_stack F S t true j s) as C;
-        destruct (close_stack F S t true j s) as [st2 o2] end.
-      simpl in *. rewrite (frame_cpar _ _ C). reflexivity. }
-    destruct o; simpl in *; try discriminate.
-    + unfold do_enter. destruct (hget h (st_handles st)) as [[|i s]|]; try reflexivity. unfold push.
-      destruct (negb (existsb (same i t s) (st_entries st))); [|reflexivity].
-      match goal with |- context [clone_span ?S i s] => destruct (clone_span S i s) as [st2|] eqn:E end; [|reflexivity].
-      destruct (clone_span_upd _ _ _ _ E) as (w & ->). reflexivity.
-    + unfold do_exit. destruct (find_seq q0 (st_created st)) as [[i s]|]; [apply EX | reflexivity].
-    + unfold do_exith. destruct (hget h (st_handles st)) as [[|i s]|]; try reflexivity. apply EX.
-  - unfold step. destruct (st_panicked st); [left; reflexivity|].
-    destruct o; simpl in *; try discriminate.
-    + rewrite do_new_unfold. destruct (hget h (st_handles st)); [left; reflexivity|].
-      destruct (eff st t false) as [i|]; [|left; reflexivity].
-      assert (R : match resolve st i t k with inl (st1, _, _) => st_cpar st1 = st_cpar st /\ st_count st1 = st_count st | inr _ => True end).
-      { unfold resolve. destruct k as [| |hp]; auto.
-        - destruct (current_span st i t) as [c|]; auto. destruct (clone_span st i c) as [st2|] eqn:E; auto. destruct (clone_span_upd _ _ _ _ E) as (w & ->). auto.
-        - destruct (hget hp (st_handles st)) as [[|j p]|]; auto. destruct (clone_span st i p) as [st2|] eqn:E; auto. destruct (clone_span_upd _ _ _ _ E) as (w & ->). auto. }
-      destruct (resolve st i t k) as [[[st1 parent] o1]|e]; [|left; reflexivity]. destruct R as (R1 & R2).
-      unfold create. destruct (negb (alloc_legal (st_slots st1 i (fst a)) a)); [left; exact R1|].
-      match goal with |- context [new_layers ?L ?S ?I ?Q ?A] => pose proof (new_layers_others L S I Q A) as F; destruct (new_layers L S I Q A) as [st5 o5] end.
-      simpl in *. destruct F as (_ & _ & _ & _ & _ & _ & _ & _ & _ & _ & F & _). right. rewrite F. simpl. rewrite R2. eexists.
-      f_equal. destruct parent as [p|]; [|exact R1].
-      match goal with |- context [match ?x with Some _ => _ | None => _ end] => destruct x end; exact R1.
-    + left. unfold do_clone. destruct (hget h (st_handles st)) as [[|i s]|]; destruct (hget h' (st_handles st)); try reflexivity.
-      destruct (clone_span st i s) as [st2|] eqn:E; [|reflexivity]. destruct (clone_span_upd _ _ _ _ E) as (w & ->). reflexivity.
-    + left. unfold do_drop. destruct (hget h (st_handles st)) as [[|i s]|]; try reflexivity.
-      match goal with |- context [close_stack ?F ?S t false i s] => pose proof (frame_eq_close_stack F S t false i s) as C end.
-      rewrite (frame_cpar _ _ C). reflexivity.
-    + left. unfold do_current. destruct (hget h (st_handles st)); [reflexivity|]. destruct (eff st t false) as [i|]; [|reflexivity].
-      destruct (current_span st i t) as [c|]; [|reflexivity].
-      destruct (clone_span st i c) as [st2|] eqn:E; [|reflexivity]. destruct (clone_span_upd _ _ _ _ E) as (w & ->). reflexivity.
-    + left. unfold do_event. destruct (eff st t false); reflexivity.
-    + left. unfold do_setdef. destruct (dget t (st_def st)); reflexivity.
-    + left. unfold do_unsetdef. destruct (dget t (st_def st)); reflexivity.
-    + left. unfold do_readtrace. destruct (hget h (st_handles st)) as [[|i s]|]; reflexivity.
+  intros st o. unfold step. destruct (st_panicked st); [left; reflexivity|].
+  destruct (existsb odd_hid (op_hids o)); [left; reflexivity|].
+  assert (Rr : forall st, cp_eq st st) by reflexivity.
+  assert (Rt : forall a b c, cp_eq a b -> cp_eq b c -> cp_eq a c) by (unfold cp_eq; intros; congruence).
+  assert (RG : forall st h l n, cp_eq st (set_guards h l n st)) by reflexivity.
+  assert (RF : forall st f v, cp_eq st (set_filter f v st)) by reflexivity.
+  assert (RH : forall st h, cp_eq st (set_handles (hdel h (st_handles st)) st)) by reflexivity.
+  assert (RFr : forall a b, frame_eq a b -> cp_eq a b) by (intros; apply frame_cpar; auto).
+  assert (EX : forall t i s, st_cpar (fst (exit_at st t i s)) = st_cpar st).
+  { intros. unfold exit_at. destruct (pop i t s (st_entries st)) as [[es last]|]; [|reflexivity].
+    destruct last; [|reflexivity].
+    match goal with |- context [eff ?S t false] => destruct (eff S t false) as [j|] end; [|reflexivity].
+    match goal with |- context [close_stack ?F ?S t true j s] => pose proof (frame_eq_close_stack F S t true j s) as C;
+      destruct (close_stack F S t true j s) as [st2 o2] end.
+    simpl in *. rewrite (frame_cpar _ _ C). reflexivity. }
+  destruct o; simpl.
+  - unfold new_with_guards.
+    assert (N : forall st', st_cpar (note_vis st st' t) = st_cpar st') by (intros; unfold note_vis; destruct (st_count st <? st_count st'); reflexivity).
+    pose proof (do_new_cpar st t h k a) as D.
+    destruct (eff st t false) as [i|].
+    + destruct (in_limbo st i (fst a)); [left; reflexivity|].
+      destruct (do_new st t h k a) as [st' ob]. simpl in *. rewrite N. exact D.
+    + destruct (do_new st t h k a) as [st' ob]. simpl in *. rewrite N. exact D.
+  - left. unfold do_clone. destruct (hget h (st_handles st)) as [[|i s]|]; destruct (hget h' (st_handles st)); try reflexivity.
+    destruct (clone_span st i s) as [st2|] eqn:E; [|reflexivity]. destruct (clone_span_upd _ _ _ _ E) as (w & ->). reflexivity.
+  - left. unfold do_drop. destruct (hget h (st_handles st)) as [[|i s]|]; try reflexivity.
+    match goal with |- context [close_stack ?F ?S t false i s] => pose proof (frame_eq_close_stack F S t false i s) as C end.
+    rewrite (frame_cpar _ _ C). reflexivity.
+  - left. unfold do_enter. destruct (hget h (st_handles st)) as [[|i s]|]; try reflexivity. unfold push.
+    destruct (negb (existsb (same i t s) (st_entries st))); [|reflexivity].
+    match goal with |- context [clone_span ?S i s] => destruct (clone_span S i s) as [st2|] eqn:E end; [|reflexivity].
+    destruct (clone_span_upd _ _ _ _ E) as (w & ->). reflexivity.
+  - left. unfold do_exit. destruct (find_seq q (st_created st)) as [[i s]|]; [apply EX | reflexivity].
+  - left. unfold do_exith. destruct (hget h (st_handles st)) as [[|i s]|]; try reflexivity. apply EX.
+  - left. unfold do_current. destruct (hget h (st_handles st)); [reflexivity|]. destruct (eff st t false) as [i|]; [|reflexivity].
+    destruct (current_span st i t) as [c|]; [|reflexivity].
+    destruct (clone_span st i c) as [st2|] eqn:E; [|reflexivity]. destruct (clone_span_upd _ _ _ _ E) as (w & ->). reflexivity.
+  - left. unfold do_event. destruct (eff st t false); reflexivity.
+  - left. unfold do_setdef. destruct (dget t (st_def st)); reflexivity.
+  - left. unfold do_unsetdef. destruct (dget t (st_def st)); reflexivity.
+  - left. unfold do_readtrace. destruct (hget h (st_handles st)) as [[|i s]|]; reflexivity.
+  - left. apply (rel_hold cp_eq Rr RG).
+  - left. apply (rel_poke cp_eq Rr RG).
+  - left. apply (rel_peek cp_eq Rr).
+  - left. apply (rel_release cp_eq Rr Rt RG RH RFr).
+  - left. exact (rel_enabled cp_eq RF st t dis).
+  - left. exact (rel_fevent cp_eq Rr st t k).
 Qed.
 
 Theorem cpar_stable : forall pend st tr o q v, Inv pend st tr -> cpar_get q (st_cpar st) = Some v ->
   cpar_get q (st_cpar (fst (step st o))) = Some v.
 Proof.
   intros pend st tr o q v I H. pose proof (i_cpar_dom _ _ _ I _ _ H) as Lt.
-  destruct (cpar_stable_step st o q v H Lt (i_cpar_dom _ _ _ I)) as [->|(w & ->)]; auto.
+  destruct (cpar_stable_step st o) as [->|(w & ->)]; auto.
   rewrite cpar_get_cons_other by lia. exact H.
 Qed.
 
@@ -507,8 +561,8 @@ Qed.
 (** root -> mid -> leaf entered in that order on thread 0, the root also entered on thread 1; thread 0 exits the MIDDLE one first *)
 Definition h_chain : list op :=
   [ OSetDef 0 (Some 0); OSetDef 1 (Some 0);
-    ONewSpan 0 1 PRoot (0%N, 0%N); OEnter 0 1; ONewSpan 0 2 PCtx (1%N, 0%N); OEnter 0 2; ONewSpan 0 3 PCtx (2%N, 0%N); OEnter 0 3;
-    OEnter 1 1; OExit 0 1 ].
+    ONewSpan 0 2 PRoot (0%N, 0%N); OEnter 0 2; ONewSpan 0 4 PCtx (1%N, 0%N); OEnter 0 4; ONewSpan 0 6 PCtx (2%N, 0%N); OEnter 0 6;
+    OEnter 1 2; OExit 0 1 ].
 
 Lemma h_chain_ok :
   WellFormed two_layers None h_chain /\ OwnDefault two_layers None h_chain /\
